@@ -29,15 +29,15 @@ type Solver struct {
 	stack []frameDefs
 	seen  map[int]bool
 
-	queries  int
-	sat      int
-	unsat    int
-	unknown  int
-	errors   int
-	dur      time.Duration
-	maxQuery time.Duration
+	queries   int
+	sat       int
+	unsat     int
+	unknown   int
+	errors    int
+	dur       time.Duration
+	maxQuery  time.Duration
 	fallbacks int
-	logf     *os.File
+	logf      *os.File
 }
 
 var solverTimeoutMs = 1500 // incremental queries; slow ones are re-decided one-shot by a portfolio
